@@ -59,6 +59,8 @@ type Cfg struct {
 	// ListOutage: every List call fails with an ordinary storage error, also after cancellation (a backend that does
 	// not look at the context); the only thing explored is when the context is cancelled. Sync must return then.
 	ListOutage bool `json:"list_outage"`
+	// ReceiveOnly: the instance runs in receive-only mode (it merges, never uploads); the application still writes locally
+	ReceiveOnly bool `json:"receive_only"`
 	// OtherUpdates: the OtherUpdateSource extension hook is set; "an update of another kind for instance r arrives" is an
 	// environment answer (once). FirstLoadFails: the first download of r's snapshot fails (scripted, no cost).
 	OtherUpdates   bool `json:"other_updates"`
@@ -606,8 +608,8 @@ func (w *World) checkC11() {
 
 // checkC09: at idle, the newest own snapshot reflects every application commit.
 func (w *World) checkC09() {
-	if len(w.touched) == 0 {
-		return
+	if len(w.touched) == 0 || w.Cfg.ReceiveOnly {
+		return // (a receive-only instance publishes nothing, by design)
 	}
 	name, lc := w.newestOwn()
 	mode := "shadow"
@@ -668,7 +670,7 @@ func Run(cfg Cfg, ctx *explore.Ctx) Result {
 		}
 		return time.Unix(0, int64(w.now()))
 	})
-	opt := inst.Opt{Native: cfg.Native, Tweak: func(c *config.Config, lc *config.LMDB) {
+	opt := inst.Opt{Native: cfg.Native, ReceiveOnly: cfg.ReceiveOnly, Tweak: func(c *config.Config, lc *config.LMDB) {
 		c.OnlyOnce = cfg.OnlyOnce
 		c.StorageRetryCount = 3
 		if cfg.ForceInterval {
